@@ -62,6 +62,21 @@ def _die_provenance(prog, f, e, depth=0):
                         pref = {"k": "ref", "d": "param", "id": callee["params"][idx]["id"], "n": callee["params"][idx]["n"]}
                         res.append(_die_provenance(prog, callee, pref, depth + 1))
         if u.get("d") == "param" and not res:
+            # a by-value / const-reference parameter: the provenance is that of the argument at every call site
+            pidx = [i for i, p_ in enumerate(f.get("params", [])) if p_["id"] == vid]
+            if pidx and depth < 3:
+                got = []
+                for g in prog.funcs.values():
+                    if g.get("body") is None or g is f:
+                        continue
+                    for c in calls(g["body"]):
+                        if c.get("fid") == f["fid"] and len(c.get("a", [])) > pidx[0]:
+                            got.append(_die_provenance(prog, g, c["a"][pidx[0]], depth + 1))
+                kinds = {r[0] for r in got}
+                if got and kinds == {"origin"}:
+                    return ("origin", "%s at every call site of %s" % (got[0][1], f["q"]))
+                if "same-unit" in kinds:
+                    return [r for r in got if r[0] == "same-unit"][0]
             return ("unknown", "parameter %s" % u["n"])
         kinds = {r[0] for r in res}
         if kinds == {"origin"}:
